@@ -19,7 +19,10 @@ import (
 
 type finding struct {
 	key, kind, family, text, out, detail string
-	count                                int64
+	rank                                 int   // severity of the kept example (lower = more severe)
+	count                                int64 // generated texts in this class
+	validBefore                          int64 // … whose original text validated (a working config changes meaning)
+	becomesValid                         int64 // … whose original text failed validation and whose formatted text validates
 }
 
 type engine struct {
@@ -111,15 +114,27 @@ func (w *worker) eval(family string, sites []string, label string, triples []str
 	if !e.frozen[key] && label != "" {
 		key += "@" + label
 	}
+	rank := 2
+	switch {
+	case v.compiledOK:
+		rank = 0
+	case v.okAfter:
+		rank = 1
+	}
 	e.mu.Lock()
 	f := e.viol[key]
 	if f == nil {
-		f = &finding{key: key, kind: v.kind, family: family, text: text, out: v.out, detail: v.detail}
+		f = &finding{key: key, kind: v.kind, family: family, text: text, out: v.out, detail: v.detail, rank: rank}
 		e.viol[key] = f
-	} else if len(text) < len(f.text) || (len(text) == len(f.text) && text < f.text) {
-		f.family, f.text, f.out, f.detail = family, text, v.out, v.detail
+	} else if rank < f.rank || (rank == f.rank && (len(text) < len(f.text) || (len(text) == len(f.text) && text < f.text))) {
+		f.family, f.text, f.out, f.detail, f.rank = family, text, v.out, v.detail, rank
 	}
 	f.count++
+	if rank == 0 {
+		f.validBefore++
+	} else if rank == 1 {
+		f.becomesValid++
+	}
 	e.mu.Unlock()
 }
 
@@ -137,14 +152,16 @@ func (e *engine) report() {
 	}
 	sort.Strings(keys)
 	for _, k := range keys {
-		fmt.Printf("C19-CLASS key=%s texts=%d minimal=%q\n", k, e.viol[k].count, e.viol[k].text)
+		fmt.Printf("C19-CLASS key=%s texts=%d valid_before=%d invalid_becomes_valid=%d example=%q\n", k, e.viol[k].count, e.viol[k].validBefore, e.viol[k].becomesValid, e.viol[k].text)
 	}
 	e.r.Set("violation_key_list", keys)
 	for _, k := range keys {
 		f := e.viol[k]
 		text := f.text
-		msg := fmt.Sprintf("%s\n%d generated text(s) in this class; minimal text:\n%s\nformatted:\n%s", f.detail, f.count, indent(f.text), indent(f.out))
-		e.r.Violation(f.key, msg, map[string]any{"text": f.text, "formatted": f.out, "family": f.family, "detail": f.detail, "texts_in_class": f.count},
+		msg := fmt.Sprintf("%s\n%d generated text(s) in this class (%d validated before formatting, %d were invalid and validate after formatting); most severe, then shortest text:\n%s\nformatted:\n%s",
+			f.detail, f.count, f.validBefore, f.becomesValid, indent(f.text), indent(f.out))
+		e.r.Violation(f.key, msg, map[string]any{"text": f.text, "formatted": f.out, "family": f.family, "detail": f.detail, "texts_in_class": f.count,
+			"texts_valid_before": f.validBefore, "texts_invalid_becoming_valid": f.becomesValid},
 			func() bool { return check(text).kind != "" })
 	}
 }
@@ -173,14 +190,6 @@ func crossSpellings(s *slot) []spelling {
 		if len(out) == 6 {
 			break
 		}
-	}
-	return out
-}
-
-func quickSpellings(s *slot) []spelling {
-	out := crossSpellings(s)
-	if len(out) > 3 {
-		out = out[:3]
 	}
 	return out
 }
@@ -330,10 +339,8 @@ func TestCheck(t *testing.T) {
 			}
 		}
 	}
-	if r.Quick() {
-		inBlock(quickSpellings)
-	} else {
-		inBlock(func(s *slot) []spelling { return s.sp })
+	inBlock(func(s *slot) []spelling { return s.sp })
+	if r.Thorough() {
 		// -- k = 2 across blocks: every pair of slots of different blocks ------------------
 		for i := range g.slots {
 			for j := i + 1; j < len(g.slots); j++ {
@@ -357,9 +364,12 @@ func TestCheck(t *testing.T) {
 		}
 	}
 
+	t0 := time.Now()
 	e.run(phase1)
 	e.freeze()
+	t1 := time.Now()
 	e.run(phase2)
+	r.Set("phase_wall_s", []float64{t1.Sub(t0).Seconds(), time.Since(t1).Seconds()})
 	if e.timedOut {
 		r.NotExhaustive("wall budget reached before every task was dispatched")
 	}
@@ -389,7 +399,7 @@ func TestCheck(t *testing.T) {
 	r.Set("violation_keys", len(e.viol))
 	r.Set("rule", "programs = minimal valid base (/d with one deliver target) + every choice of <= k slots of the slot table "+
 		"(transcribed from parser.go: every directive of every block kind) with every spelling of each chosen slot, in both orders; "+
-		"k = 1 everywhere, k = 2 inside one block (quick: 3 spellings per slot, thorough: all core spellings) and, thorough only, k = 2 across blocks (<= 6 spellings per slot); "+
+		"k = 1 everywhere (core and extra spellings), k = 2 inside one block (all core spellings) and, thorough only, k = 2 across blocks (<= 6 spellings per slot); "+
 		"plus, at every value position, every string of <= "+fmt.Sprint(runner.Pick(r, 2, 3))+" symbols over {a, blank, \", \\, #, {, }, $, tab, \\n escape, ä} (and NBSP, \\t, \\r) quoted and unquoted; "+
 		"plus every route layout of <= 3 groups / <= 3 routes over bare|inbound|outbound|internal x shorthand|wrapper x bare|quoted path; plus whole-file spellings (CRLF, CR, BOM, indentation, one line) of the k = 1 programs; "+
 		"texts the parser rejects are skipped and counted. A case is distinct/non-trivial when it parsed: key = (block kind, directive, spelling) per chosen slot, or the layout shape.")
